@@ -54,7 +54,29 @@ fn droppable() -> Vec<Pay> {
     vec![Pay::Z0, Pay::ZA, Pay::P1, Pay::P4, Pay::P8, Pay::P16, Pay::P40, Pay::PR, Pay::PBIG, Pay::PA64, Pay::PH]
 }
 
+/// The profile of a property.  `"<id>v1"` names the first generation of the profile (the one
+/// the regression cases were generated under, so that their bytes keep their meaning); the
+/// current one additionally carries a *tail*: every operation kind the focused weight table
+/// leaves out gets weight 1 at the end of the table.  Round 6 showed why: changes hidden in a
+/// variant absent from the owning property's table (`try_recv_realtime` for C06 / C19,
+/// `to_async` for C05) were reported by other checks only.
 pub fn profile(prop: &str, tier: &str) -> Profile {
+    let (base_name, first_gen) = match prop.strip_suffix("v1") {
+        Some(b) => (b, true),
+        None => (prop, false),
+    };
+    let mut p = profile_focused(base_name, first_gen, tier);
+    if !first_gen && base_name != "ALL" {
+        for k in ALL_K.iter() {
+            if *k != K::Skip && !p.weights.iter().any(|(k2, w)| k2 == k && *w > 0) {
+                p.weights.push((*k, 1));
+            }
+        }
+    }
+    p
+}
+
+fn profile_focused(prop: &str, first_gen: bool, tier: &str) -> Profile {
     let thorough = tier == "thorough";
     // small capacities keep "full" easy to reach; a sixth of the cases use larger ones
     let mut caps: Vec<Cap> = Vec::new();
@@ -128,8 +150,7 @@ pub fn profile(prop: &str, tier: &str) -> Profile {
             pays: ALL_PAY.to_vec(),
             ..base
         },
-        // "C05v1" is the profile the regression cases C05-D1 / C05-D2 were generated under
-        "C05" | "C05v1" => Profile {
+        "C05" => Profile {
             name: "C05",
             weights: cat(&[
                 SENDS,
@@ -145,7 +166,7 @@ pub fn profile(prop: &str, tier: &str) -> Profile {
                 ],
                 // "destroyed ... when its last handle goes away" depends on how the handles came
                 // about: conversions, clones and streams belong to the history (C05-r6m2)
-                if prop == "C05" { &[(K::ConvertH, 2), (K::CloneH, 1), (K::StreamNext, 1)] } else { &[] },
+                if !first_gen { &[(K::ConvertH, 2), (K::CloneH, 1), (K::StreamNext, 1)] } else { &[] },
             ]),
             pays: droppable(),
             ..base
@@ -368,10 +389,10 @@ pub fn profile(prop: &str, tier: &str) -> Profile {
                 (K::DropH, 2),
                 (K::Yield, 3),
                 // what the other receive variants leave behind is what the next drain finds
-                (K::TryRecvRt, 2),
-                (K::TryRecv, 1),
-                (K::RecvTimeout, 1),
-                (K::StreamNext, 1),
+                (K::TryRecvRt, if first_gen { 0 } else { 2 }),
+                (K::TryRecv, if first_gen { 0 } else { 1 }),
+                (K::RecvTimeout, if first_gen { 0 } else { 1 }),
+                (K::StreamNext, if first_gen { 0 } else { 1 }),
             ]),
             caps: vec![Cap::N(0), Cap::N(1), Cap::N(2), Cap::N(3), Cap::Unbounded],
             pays: vec![Pay::P1, Pay::P4, Pay::P8, Pay::P16, Pay::P40, Pay::PR, Pay::Z0, Pay::U32, Pay::U64, Pay::PBIG],
